@@ -111,6 +111,8 @@ class Extracted:
         self.sha256 = hashlib.sha256(raw.encode()).hexdigest()
 
     def banner(self):
+        if getattr(self, 'inline', False):
+            return ''
         return '/* extracted: %s:%d  sha256(raw body)=%s\n   rules fired: %s */' % (
             self.header, self.line, self.sha256[:16],
             ', '.join('%s x%d' % f for f in self.fired) or 'none')
@@ -127,6 +129,32 @@ def read_header(rel):
         except OSError as e:
             raise ExtractError('cannot read header %s: %s' % (p, e))
     return _cache[p]
+
+
+def extract_expr(ident, header, anchor, rules=(), members=(), within=None, common=True):
+    """Cut an initialiser / expression: `anchor` has exactly one group, the text that is kept (e.g. the
+    initialiser of a static const member).  Must match exactly once."""
+    text = read_header(header)
+    base_line = 0
+    if within:
+        outer, oline, _ = find_body(text, within)
+        base_line = oline - 1
+        text = outer
+    ms = list(re.finditer(anchor, text, re.S))
+    if len(ms) != 1:
+        raise ExtractError('expression anchor matched %d times (expected 1): %s' % (len(ms), anchor))
+    raw = ms[0].group(1)
+    body = strip_comments(raw)
+    body, fired = apply_rules(body, list(rules))
+    if common:
+        body, f2 = apply_rules(body, COMMON_RULES)
+        fired += f2
+    if members:
+        body, n = qualify_members(body, members)
+        if n:
+            fired.append(('R3.members', n))
+    line = base_line + text.count('\n', 0, ms[0].start()) + 1
+    return Extracted(ident, header, line, ' '.join(ms[0].group(0).split())[:120], raw, body, fired)
 
 
 def extract(ident, header, anchor, nth=0, rules=(), members=(), count=None, within=None,
